@@ -169,7 +169,9 @@ Inductive extra :=
             (attributes : list (Z * attrs)) (r : option obs_graph)
 | XMass (g : graph) (car : option graph) (r : option float)
 (** a direct call of pysmiles' correct_aromatic_rings(g, strict) with the two recorded enumeration answers *)
-| XCar (strict : bool) (g : graph) (M : list (Z * Z)) (L : list (list Z * bool)) (r : option obs_graph).
+| XCar (strict : bool) (g : graph) (M : list (Z * Z)) (L : list (list Z * bool)) (r : option obs_graph)
+(** a direct call of rebuild_h_atoms(g, keep_bonding, copy_attrs), aromaticity step computed by the model *)
+| XRebuild (kb : bool) (ca : list pystr) (g : graph) (M : list (Z * Z)) (L : list (list Z * bool)) (r : option obs_graph).
 
 Fixpoint zlist_eqb (a b : list Z) : bool :=
   match a, b with [], [] => true | x :: a', y :: b' => Z.eqb x y && zlist_eqb a' b' | _, _ => false end.
@@ -193,6 +195,7 @@ Definition extra_ok (x : extra) : bool :=
                      | _, _ => false
                      end
   | XCar strict g M L r => graph_res_ok (car_model strict g M L) r
+  | XRebuild kb ca g M L r => graph_res_ok (rebuild_h_atoms_m kb ca g M L) r
   end.
 
 (** ------------------------------------------------------------ cases *)
